@@ -10,7 +10,9 @@ Decided clauses, per listener program, on SSA-form IR:
       object or a variable-length-array size;
   K4  a loop whose position advances by a wire value needs a non-zero guard;
   K5  %s must not print receive-buffer bytes; decoder result objects must have
-      their members set before the call.
+      their members set before the call;
+  K6  an object handed to free() is not accessed (or freed again) at a point
+      that free() dominates.
 Not decided: everything else in the statement (absence of every memory error,
 termination in general, liveness after a bad datagram)."""
 from .. import build, irparse, taint
@@ -64,7 +66,7 @@ def run(tier, res):
     if total_recv < floors.get('C18_min_recv_calls', 6):
         raise Broken('only %d receive calls found over all listeners' % total_recv)
     res.explanation = __doc__
-    res.rule = 'K1-K5 as in the module docstring, over %d listener programs' % len(LISTENERS)
+    res.rule = 'K1-K6 as in the module docstring, over %d listener programs' % len(LISTENERS)
     build.cleanup()
     return res
 
